@@ -12,7 +12,7 @@ def T(ctx, q, t):
 
 # ------------------------------------------------------------------ generic stages
 def stage_mc_replay(ctx, E, name, module, cfg, prop=None, workers=16, timeout=3000, heap=None, extra_env=None,
-                    extra=None):
+                    extra=None, cold=0):
     """MC stage that emits cases + S->I replay of all emitted cases."""
     prop = prop or ctx.pid
     cases = os.path.join(ctx.work, "cases_%s.ndjson" % name)
@@ -35,6 +35,26 @@ def stage_mc_replay(ctx, E, name, module, cfg, prop=None, workers=16, timeout=30
         name, res["distinct"], summ["total"], summ["ok"], summ["nbad"],
         {k: v["n"] for k, v in summ["dev"].items()}, res["wall"]))
     ctx.absorb_summary("S->I " + name, summ)
+    if cold:
+        # cold starts: `cold` fresh processes, each releasing 48 goroutines together on 48 of these cases as the very
+        # first calls into the library (lazily built tables, once-only initialisation, first-use caches)
+        tot = {"total": 0, "ok": 0, "nbad": 0, "nontrivial": 0, "dev": {}, "bad": [], "samples": []}
+        for k in range(cold):
+            cp = os.path.join(ctx.work, "cold_%s.json" % name)
+            E.run_driver(ctx.drv, ["cold", prop, cases, cp, str(k + int(ctx.seed) * 7)], timeout=600)
+            with open(cp) as f:
+                cs = json.load(f)
+            for key in ("total", "ok", "nbad", "nontrivial"):
+                tot[key] += cs.get(key, 0)
+            for d, v in (cs.get("dev") or {}).items():
+                cur = tot["dev"].setdefault(d, {"n": 0, "first": v.get("first")})
+                cur["n"] += v["n"]
+            tot["bad"] += (cs.get("bad") or [])[:5]
+            os.remove(cp)
+        tot["x_processes"] = cold
+        tot["bad"] = tot["bad"][:20]
+        E.log("%s cold starts: %d processes, %d first calls made concurrently, bad=%d" % (name, cold, tot["total"], tot["nbad"]))
+        ctx.absorb_summary("S->I " + name + " (cold starts, concurrent first calls)", tot)
     os.remove(cases)
     return res, summ
 
@@ -258,7 +278,7 @@ def run_C12(ctx, E):
     stage_mc_only(ctx, E, "booth", "Booth_MC", "Booth_MC_%s.cfg" % ctx.tier)
     coverage_gate(ctx, E, "Booth_MC", "Booth_MC_quick.cfg")
     for suffix in ("", "3", "4"):
-        stage_mc_replay(ctx, E, "mc%s" % (suffix or "2"), "C12_MC", "C12_MC_%s%s.cfg" % (ctx.tier, suffix))
+        stage_mc_replay(ctx, E, "mc%s" % (suffix or "2"), "C12_MC", "C12_MC_%s%s.cfg" % (ctx.tier, suffix), cold=8 if ctx.tier == "quick" else 40)
     drv = ctx.drv
     if ctx.tier == "thorough":   # the rotations of a group are canonicalised concurrently: under the race detector
         drv = E.build_driver(ctx.work, race=True)
@@ -269,7 +289,7 @@ def run_C12(ctx, E):
 # ------------------------------------------------------------------ C11
 def run_C11(ctx, E):
     ctx.exhaustive = True
-    stage_mc_replay(ctx, E, "upper", "C11_MC", "C11_MC_%s.cfg" % ctx.tier)
+    stage_mc_replay(ctx, E, "upper", "C11_MC", "C11_MC_%s.cfg" % ctx.tier, cold=60 if ctx.tier == "quick" else 300)
     stage_mc_replay(ctx, E, "mixedU", "C11_MC", "C11_MC_%s_mixed.cfg" % ctx.tier)
     stage_record_trace(ctx, E, "calls", "C11_Trace", "C11_Trace.cfg", heap="8g")
 
@@ -278,7 +298,7 @@ def run_C11(ctx, E):
 def run_C04(ctx, E):
     ctx.exhaustive = True
     for m in ("dna", "rna", "iupac", "nucfull"):
-        stage_mc_replay(ctx, E, m, "C04_MC", "C04_MC_%s_%s.cfg" % (ctx.tier, m))
+        stage_mc_replay(ctx, E, m, "C04_MC", "C04_MC_%s_%s.cfg" % (ctx.tier, m), cold=8 if ctx.tier == "quick" else 40)
     drv = ctx.drv
     if ctx.tier == "thorough":   # overlapping calls of a pure function: under the race detector
         drv = E.build_driver(ctx.work, race=True)
@@ -289,13 +309,13 @@ def run_C04(ctx, E):
 def run_C05(ctx, E):
     ctx.exhaustive = True
     for m in ("dna", "rna", "iupac", "nucfull", "protein", "invalid"):
-        stage_mc_replay(ctx, E, m, "C04_MC", "C04_MC_%s_%s.cfg" % (ctx.tier, m))
+        stage_mc_replay(ctx, E, m, "C04_MC", "C04_MC_%s_%s.cfg" % (ctx.tier, m), cold=8 if ctx.tier == "quick" else 40)
     stage_record_trace(ctx, E, "sep", "C04_Trace", "C04_Trace.cfg", heap="8g")
 
 
 def run_C06(ctx, E):
     ctx.exhaustive = True
-    stage_mc_replay(ctx, E, "cells", "C06_MC", "C06_MC_cells.cfg")
+    stage_mc_replay(ctx, E, "cells", "C06_MC", "C06_MC_cells.cfg", cold=8 if ctx.tier == "quick" else 40)
     stage_mc_replay(ctx, E, "hom", "C06_MC", "C06_MC_hom_%s.cfg" % ctx.tier)
     stage_record_trace(ctx, E, "tr", "C06_Trace", "C06_Trace.cfg", heap="8g")
 
@@ -329,7 +349,7 @@ def run_C08(ctx, E):
 
 def run_C07(ctx, E):
     os.environ["VERIF_TIER_INTERNAL"] = ctx.tier
-    stage_mc_replay(ctx, E, "eligible", "C07_MC", "C07_MC_%s.cfg" % ctx.tier)
+    stage_mc_replay(ctx, E, "eligible", "C07_MC", "C07_MC_%s.cfg" % ctx.tier, cold=8 if ctx.tier == "quick" else 40)
     # histories: one live table re-weighted in place and optimised in between (what Optimize emits depends on the current weights only)
     stage_mc_replay(ctx, E, "session", "C07_Session", "C07_Session_%s.cfg" % ctx.tier, prop="C07S")
     coverage_gate(ctx, E, "C07_Session", "C07_Session_quick.cfg")
@@ -373,6 +393,9 @@ def run_C09(ctx, E):
     stage_mc_replay(ctx, E, "designed", "C09_Designed", "C09_Designed_%s.cfg" % ctx.tier, timeout=3000, workers=1)
     if ctx.tier == "thorough":
         stage_mc_replay(ctx, E, "designed6", "C09_Designed", "C09_Designed_thorough6.cfg", timeout=3000, workers=1)
+    else:
+        # rings of 4 and 5 junctions, one fragment per slot (the overhang alphabets of the harness take turns)
+        stage_mc_replay(ctx, E, "designed5", "C09_Designed", "C09_Designed_quick5.cfg", timeout=3000, workers=1)
     if ctx.tier == "thorough":
         os.environ.pop("POLYDRV_CHILD", None)
         os.environ.pop("POLYDRV_NO_RLIMIT", None)
@@ -491,7 +514,7 @@ def run_C17(ctx, E):
 
 def run_C19(ctx, E):
     ctx.exhaustive = True
-    stage_mc_replay(ctx, E, "grid", "C19_MC", "C19_MC_%s.cfg" % ctx.tier, timeout=3000, heap="24g")
+    stage_mc_replay(ctx, E, "grid", "C19_MC", "C19_MC_%s.cfg" % ctx.tier, timeout=3000, heap="24g", cold=8 if ctx.tier == "quick" else 40)
     if ctx.tier == "thorough":
         stage_mc_replay(ctx, E, "fullgrid", "C19_MC", "C19_MC_thorough_grid.cfg", timeout=3000, heap="24g")
     stage_record_trace(ctx, E, "calls", "C19_Trace", "C19_Trace.cfg", heap="8g")
@@ -502,7 +525,7 @@ def run_C02(ctx, E):
     side = os.path.join(ctx.work, "c02_printed.ndjson")
     os.environ["C02_PRINTED"] = side
     os.environ["C02_EVERY"] = str(T(ctx, 3, 400))
-    stage_mc_replay(ctx, E, "exprs", "C02_MC", "C02_MC_%s.cfg" % ctx.tier, timeout=3300, heap="28g")
+    stage_mc_replay(ctx, E, "exprs", "C02_MC", "C02_MC_%s.cfg" % ctx.tier, timeout=3300, heap="28g", cold=8 if ctx.tier == "quick" else 40)
     # the written-back text of the enumerated expressions, judged by the specification's INSDC recogniser
     n = sum(1 for _ in open(side))
     if n == 0:
@@ -513,17 +536,17 @@ def run_C02(ctx, E):
 
 def run_C14(ctx, E):
     ctx.exhaustive = True
-    stage_mc_replay(ctx, E, "layouts", "C14_MC", "C14_MC_%s.cfg" % ctx.tier)
+    stage_mc_replay(ctx, E, "layouts", "C14_MC", "C14_MC_%s.cfg" % ctx.tier, cold=8 if ctx.tier == "quick" else 40)
     stage_record_trace(ctx, E, "roundtrip", "C14_Trace", "C14_Trace.cfg", heap="16g")
 
 
 def run_C16(ctx, E):
-    stage_mc_replay(ctx, E, "listings", "C16_MC", "C16_MC.cfg", workers=1)
+    stage_mc_replay(ctx, E, "listings", "C16_MC", "C16_MC.cfg", workers=1, cold=8 if ctx.tier == "quick" else 40)
     stage_record_trace(ctx, E, "listings", "C16_Trace", "C16_Trace.cfg", heap="16g")
 
 
 def run_C01(ctx, E):
-    stage_mc_replay(ctx, E, "layouts", "C01_MC", "C01_MC.cfg", workers=1)   # long lines: one writer
+    stage_mc_replay(ctx, E, "layouts", "C01_MC", "C01_MC.cfg", workers=1, cold=8 if ctx.tier == "quick" else 40)   # long lines: one writer
     stage_record_trace(ctx, E, "files", "C01_Trace", "C01_Trace.cfg", heap="16g", timeout=3000)
 
 
@@ -537,20 +560,20 @@ def run_C03(ctx, E):
 
 def run_C15(ctx, E):
     ctx.exhaustive = True
-    stage_mc_replay(ctx, E, "trees", "C15_MC", "C15_MC_%s.cfg" % ctx.tier, timeout=3000, heap="24g")
+    stage_mc_replay(ctx, E, "trees", "C15_MC", "C15_MC_%s.cfg" % ctx.tier, timeout=3000, heap="24g", cold=8 if ctx.tier == "quick" else 40)
     stage_record_trace(ctx, E, "roundtrip", "C15_Trace", "C15_Trace.cfg", heap="16g")
 
 
 def run_C10(ctx, E):
     ctx.exhaustive = True
     for e in (("e1", "e2", "e4") if ctx.tier == "quick" else ("e1", "e2", "e3", "e4")):
-        stage_mc_replay(ctx, E, e, "C10_MC", "C10_MC_%s_%s.cfg" % (ctx.tier, e), heap="24g")
+        stage_mc_replay(ctx, E, e, "C10_MC", "C10_MC_%s_%s.cfg" % (ctx.tier, e), heap="24g", cold=8 if ctx.tier == "quick" else 40)
     stage_record_trace(ctx, E, "cut", "C10_Trace", "C10_Trace.cfg", heap="16g")
 
 
 def run_C18(ctx, E):
     ctx.exhaustive = True
-    stage_mc_replay(ctx, E, "combine", "C18_MC", "C18_MC_%s.cfg" % ctx.tier)
+    stage_mc_replay(ctx, E, "combine", "C18_MC", "C18_MC_%s.cfg" % ctx.tier, cold=8 if ctx.tier == "quick" else 40)
     stage_record_trace(ctx, E, "combine", "C18_Trace", "C18_Trace.cfg", heap="8g")
 
 
